@@ -220,7 +220,8 @@ func TestC17Snapshots(t *testing.T) {
 			label := fmt.Sprintf("k%d", ci)
 			ops := []string{"truncate-boundary", "truncate-inner", "drop-block", "dup-block", "swap-blocks", "append-next", "append-dup-last",
 				"header-first+1", "header-first-1", "header-latest+1", "header-latest-1", "header-table", "header-version",
-				"cert-delta", "cert-cid", "cert-instance", "manifest-first", "manifest-table", "garbage-tail"}
+				"cert-delta", "cert-cid", "cert-instance", "manifest-first", "manifest-table", "garbage-tail",
+				"overwrite-block", "overwrite-block", "dup-and-drop", "drop-and-append"}
 			op := rapid.SampledFrom(ops).Draw(t, label+".op")
 			cblocks := make([][]byte, len(blocks))
 			for i := range blocks {
@@ -254,6 +255,37 @@ func TestC17Snapshots(t *testing.T) {
 				cblocks = append(cblocks[:certIdx], cblocks[certIdx+1:]...)
 			case "dup-block":
 				cblocks = append(cblocks[:certIdx+1], append([][]byte{cblocks[certIdx]}, cblocks[certIdx+1:]...)...)
+			case "overwrite-block":
+				// one certificate block replaced by a copy of another one (usually its neighbour):
+				// the number of blocks still matches the header
+				if len(cblocks) >= 3 {
+					j := certIdx + rapid.SampledFrom([]int{-1, -1, 1, -2, 2}).Draw(t, label+".src")
+					if j < 1 {
+						j = certIdx + 1
+					}
+					if j >= len(cblocks) {
+						j = certIdx - 1
+					}
+					cblocks[certIdx] = cblocks[j]
+				}
+			case "dup-and-drop":
+				// a repeated certificate pays for a missing one somewhere else
+				if len(cblocks) >= 3 {
+					drop := 1 + rapid.IntRange(0, len(cblocks)-2).Draw(t, label+".drop")
+					dup := cblocks[certIdx]
+					cblocks = append(cblocks[:drop], cblocks[drop+1:]...)
+					at := 1 + rapid.IntRange(0, len(cblocks)-1).Draw(t, label+".at")
+					cblocks = append(cblocks[:at], append([][]byte{dup}, cblocks[at:]...)...)
+				}
+			case "drop-and-append":
+				// a missing certificate paid for by a surplus one at the end
+				if endIdx+1 < n {
+					cblocks = append(cblocks[:certIdx], cblocks[certIdx+1:]...)
+					cblocks = append(cblocks, certBytes(m.Certs[endIdx+1]))
+				} else {
+					cblocks = append(cblocks[:certIdx], cblocks[certIdx+1:]...)
+					cblocks = append(cblocks, cblocks[len(cblocks)-1])
+				}
 			case "swap-blocks":
 				if len(cblocks) >= 3 {
 					j := 1 + (certIdx % (len(cblocks) - 2))
